@@ -46,4 +46,17 @@ theorem expandKey_eq (key : Bytes) :
   simp only [Model.SM4.expandKey, Spec.SM4.keySchedule, h, fk_getD 0 (by decide), fk_getD 1 (by decide),
     fk_getD 2 (by decide), fk_getD 3 (by decide)]
 
+theorem foldl_keyStep_length (l : List Nat) (s : (W32 × W32 × W32 × W32) × List W32) :
+    (l.foldl Spec.SM4.keyStep s).2.length = s.2.length + l.length := by
+  induction l generalizing s with
+  | nil => rfl
+  | cons i l ih =>
+    obtain ⟨⟨k0, k1, k2, k3⟩, rks⟩ := s
+    simp only [List.foldl_cons, ih, Spec.SM4.keyStep, List.length_append, List.length_cons, List.length_nil]
+    omega
+
+/-- the key schedule yields 32 round keys -/
+theorem keySchedule_length (key : Bytes) : (Spec.SM4.keySchedule key).length = 32 := by
+  simp only [Spec.SM4.keySchedule, foldl_keyStep_length, List.length_range, List.length_nil]
+
 end SMGo.Proofs.SM4
